@@ -8,7 +8,7 @@ primitives of Base.Prims.
                       TextThroughputExtractor._make_contigous  lens / new_starts / offsets / re-base    gen_mc_*
                       TextThroughputExtractor.concatenate      offsets, per-operand shifts, flag        gen_cat_*
                       TextThroughputExtractor.get_fields_by_range  start column, length, keep_sep      gen_range_*
-  io/bam.py           BamBufferExtractor.__getitem__ / _make_contigous                                  gen_bam_*
+  io/bam.py           BamBufferExtractor.__getitem__ / _make_contigous (gather, no state change) / data   gen_bam_*
   io/delimited_buffers.py  DelimitedBuffer._get_buffer_extractor  +1 arithmetic, and whether entry ends are taken
                       before the carriage-return adjustment                                             gen_delim_*
   io/buffers/sam.py   SAMBuffer.join_fields   cell_ends, index of the separator to drop, empty-tag test gen_sam_*
@@ -369,7 +369,11 @@ def gen():
             raise Unsupported('data is compacted after the entry starts were overwritten')
         if order.index('offsets') > order.index('self._entry_starts'):
             raise Unsupported('offsets computed after the entry starts were overwritten')
-        return ('Definition gen_mc_ravel_view (entry_starts lens : list Z) : list Z * list Z :=\n  (entry_starts, lens).\n')
+        want_state = {'self._data', 'self._entry_starts', 'self._entry_ends', 'self._field_starts', 'self._is_contiguous'}
+        if set(order) & want_state != want_state or any(isinstance(st, ast.Return) and st.value is not None for st in stmts(f)):
+            raise Unsupported('_make_contigous does not re-base the object in place: assigns %s' % sorted(order))
+        return ('Definition gen_mc_ravel_view (entry_starts lens : list Z) : list Z * list Z :=\n  (entry_starts, lens).\n'
+                'Definition gen_mc_inplace : bool := true.\n')
     emit(defs, 'gen_mc_ravel_view', mc_ravel)
 
     # ---------------- TextThroughputExtractor.concatenate
@@ -456,17 +460,21 @@ def gen():
     def bam_mc():
         f = find_function(bam, BE + '._make_contigous')
         k = ListKernel(f, {'self._ends': 'entry_end', 'self._new_lines': 'entry_start'}, {})
-        k2 = ListKernel(f, {}, {'lens': 'list', 'new_starts': 'list'})
-        v = only_assignment(f, 'self._data')
-        if src_of(v) != 'RaggedArray(self._data, RaggedView2(self._new_lines, lens)).ravel()':
-            raise Unsupported('data compacted as %s' % src_of(v))
-        order = [src_of(st.targets[0]) for st in stmts(f) if isinstance(st, ast.Assign) and len(st.targets) == 1]
-        if order.index('self._data') > order.index('self._new_lines'):
-            raise Unsupported('data is compacted after the starts were overwritten')
+        # since /repo 0f67f4c the function RETURNS the gathered bytes and assigns nothing to the object
+        rets = [st for st in stmts(f) if isinstance(st, ast.Return)]
+        if len(rets) != 1 or src_of(rets[0].value) != 'RaggedArray(self._data, RaggedView2(self._new_lines, lens)).ravel()':
+            raise Unsupported('gather expression: %s' % [src_of(r.value) for r in rets])
+        state_writes = [src_of(st.targets[0]) for st in stmts(f) if isinstance(st, ast.Assign) and len(st.targets) == 1
+                        and src_of(st.targets[0]).startswith('self.')]
+        state_writes += [src_of(st.target) for st in stmts(f) if isinstance(st, ast.AugAssign) and src_of(st.target).startswith('self.')]
+        # the `data` property: the gathered value when not contiguous, the buffer itself otherwise
+        d = find_function(bam, BE + '.data')
+        body = [st for st in d.body if not (isinstance(st, ast.Expr) and isinstance(st.value, ast.Constant))]
+        if [src_of(st) for st in body] != ['if not self._is_contigous:\n    return self._make_contigous()', 'return self._data']:
+            raise Unsupported('data property: %s' % [src_of(st) for st in body])
         return (k.define_typed('gen_bam_mc_len', ['entry_start', 'entry_end'], only_assignment(f, 'lens'), 'Z')
-                + k2.define_typed('gen_bam_mc_new_starts', ['lens'], only_assignment(f, 'new_starts'), 'list')
-                + k2.define_typed('gen_bam_mc_entry_starts', ['new_starts'], only_assignment(f, 'self._new_lines'), 'list')
-                + k2.define_typed('gen_bam_mc_entry_ends', ['new_starts'], only_assignment(f, 'self._ends'), 'list'))
+                + 'Definition gen_bam_gather_view (new_lines lens : list Z) : list Z * list Z :=\n  (new_lines, lens).\n'
+                + 'Definition gen_bam_mc_inplace : bool := %s.\n' % ('true' if state_writes else 'false'))
     emit(defs, 'gen_bam_mc_len', bam_mc)
 
     # ---------------- DelimitedBuffer._get_buffer_extractor
